@@ -74,8 +74,10 @@ def run(ck: Check):
         ex.oracles = [orc]
         if 0 < len(core_idx) < n:
             ck.nontrivial((kind, n, tuple(core_idx)))
+        # the extracted model compares every candidate with every earlier one byte by byte (content de-dup): beyond
+        # ~2000 atoms only the direct oracle is applied to the implementation run
         ex.one("minimize", {}, tc, content(tc), lambda k, data: "Y" if f(data) else "N", atom=kind,
-               stream=stream, cap=bound(n, len(core_idx)) + 50)
+               stream=stream, cap=bound(n, len(core_idx)) + 50, model=n <= 2048)
 
     for kind in ("line", "char", "symbol"):
         for n in range(1, N + 1):
@@ -105,20 +107,20 @@ def run(ck: Check):
             for core in cores:
                 go("line", n, core, "large")
     # evenly spread cores at powers of two: every chunk-size level alternates failing and removable chunks
-    for n in ((2048,) if quick else (512, 1024, 2048, 4096, 8192)):
+    for n in ((2048,) if quick else (512, 1024, 2048, 4096)):
         for m in ((8, 16) if quick else (4, 8, 16, 32)):
             stride = n // m
             for off in ((0, stride // 2) if quick else (0, stride // 2, stride - 1)):
                 go("line" if off else "symbol", n, tuple(range(off, n, stride))[:m], "spread-pow2")
-    for _ in range(100 if quick else 3000):
-        n = r.randint(2, 300 if quick else 5000)
+    for _ in range(100 if quick else 800):
+        n = r.randint(2, 300 if quick else 3000)
         m = r.randint(0, min(n, 12))
         go(r.choice(["line", "symbol"]) if n > 200 else r.choice(["line", "char", "symbol"]),
            n if n <= 200 else n, tuple(sorted(r.sample(range(n), m))), "random")
     # the same strategy / Lithium objects for a small file and then a large one (nothing learnt from the first
     # input may slow down the second): exact core and the count bound for every run of the session
     from runner import impl_session
-    for sizes in ((8, 1024), (3, 300, 2000), (16, 16, 512)) if quick else ((8, 1024), (3, 300, 2000), (16, 16, 512), (1, 4096), (100, 5000)):
+    for sizes in ((8, 1024), (3, 300, 2000), (16, 16, 512)) if quick else ((8, 1024), (3, 300, 2000), (16, 16, 512), (1, 4096)):
         steps, info = [], []
         for n in sizes:
             parts = [b"<%d>\n" % i for i in range(n)]
